@@ -368,7 +368,48 @@ theorem C06_F_nilStructDeref_witness :
     callSpec wNilS "A" wNilArgs = some (.sent ⟨"GET", "/a".toList, some [], none, [("Accept", "application/json")], some "t"⟩) := by
   decide
 
+/-- a POST with a struct body through a chain with RetryMiddleware: the request of the call, and what its
+    second attempt puts on the wire -/
+def wPostI : Iface := ⟨[], [⟨"Create", "shoot: Post(\"/u\")\n".toList, [pCtx, ⟨"u", .struct [⟨"Name", true, false, ""⟩], true⟩]⟩]⟩
+def wPostArgs : Args := [("ctx", .ctx "t"), ("u", .struct false [("Name", .txt "n".toList)])]
+def wPostReq : Request := ⟨"POST", "/u".toList, none, some "u", [("Accept", "application/json"), ("Content-Type", "application/json")], some "t"⟩
+
+theorem C06_F_retryBody_witness :
+    callModel wPostI "Create" wPostArgs = some (.sent wPostReq) ∧
+    F_retryBody wPostReq 1 = true ∧
+    (attempt wPostReq none 1).body = .drained "u" ∧
+    (specAttempt wPostReq none 1).body = .whole "u" := by
+  decide
+
 end Witnesses
+
+/-! ## every attempt of a retrying chain is the request of the call -/
+
+/-- outside F_retryBody (no body, or the first attempt) what goes over the wire is what the property says:
+    the call's verb, path, query, headers and complete body, under the caller's context -/
+theorem C06_attempt (r : Request) (cancelAfter : Option Nat) (j : Nat) (h : F_retryBody r j = false) :
+    attempt r cancelAfter j = specAttempt r cancelAfter j := by
+  unfold attempt specAttempt
+  cases hb : r.body with
+  | none => rfl
+  | some b =>
+    have : j = 0 := by
+      simp [F_retryBody, hb] at h
+      exact h
+    simp [this]
+
+/-- on EVERY attempt — F_retryBody included — everything but the body is the call's: verb, path, query,
+    headers, and the context the caller passed (its values; its end exactly once the caller has cancelled
+    it, never for a call without a context parameter) -/
+theorem C06_attempt_identity (r : Request) (cancelAfter : Option Nat) (j : Nat) :
+    let a := attempt r cancelAfter j
+    a.verb = r.verb ∧ a.path = r.path ∧ a.query = r.query ∧ a.headers = r.headers ∧ a.ctx = r.ctx ∧
+    (a.ctxDone = true ↔ r.ctx.isSome = true ∧ ∃ k, cancelAfter = some k ∧ k < j) := by
+  refine ⟨rfl, rfl, rfl, rfl, rfl, ?_⟩
+  simp only [attempt, Bool.and_eq_true]
+  cases cancelAfter with
+  | none => simp [cancelledBefore]
+  | some k => simp [cancelledBefore]
 
 /-! ## Non-vacuity: a concrete method and call inside region WF, with the hypotheses of the theorems -/
 
